@@ -1,11 +1,24 @@
-import ScryerModel.Proofs.Solve
+import ScryerModel.Proofs.SolveLaws
 /-!
 # C07 — Compiled programs compute ISO SLD-resolution answers
 
-Theorems about the reference interpreter `Scryer.Solve.solve` (Model/Solve.lean).
+The reference semantics is the interpreter `Scryer.Solve.solve fuel prog goal state : Res`
+(Model/Solve.lean): the answers in the order Prolog delivers them (with multiplicity), whether a
+cut of the enclosing clause body was executed, and the uncaught ball raised after those answers.
+The theorems below make it usable as an oracle (its result does not depend on the fuel) and state
+the content of "standard depth-first, left-to-right resolution with cut" as laws: where a cut is
+local, which constructs are definable from which, that failure and balls abort a conjunction, that
+clauses are tried in textual order. `oof = false` everywhere means "the run finished within the
+fuel"; a run that is out of fuel carries no information and is never compared.
+
+The WAM code generator itself is not modelled: the implementation is tied to this reference by
+the differential run of vlib/props/C07.py, which found three compiler defects that violate the
+laws `C07_cut_in_condition_is_local`, `C07_conj_…`/head-argument sharing (see notes/findings).
 -/
 namespace Scryer.Solve
 open Scryer
+
+/-! ## The oracle is well defined -/
 
 /-- Fuel monotonicity: a run that is not out of fuel gives the same result with any larger fuel. -/
 theorem C07_fuel_mono (prog : Prog) (n k : Nat) (g : Term) (s : St)
@@ -22,5 +35,137 @@ theorem C07_result_unique (prog : Prog) (g : Term) (s : St) (r1 r2 : Res)
   have b := solve_mono prog n1 n2 g s (by rw [e2]; exact o2)
   rw [Nat.add_comm] at b
   rw [← e1, ← e2, ← a, ← b]
+
+/-! ## Where a cut is local -/
+
+/-- `call/N` is opaque to cut: whatever the goal does, the caller never sees a cut. -/
+theorem C07_call_opaque_to_cut (prog : Prog) (n : Nat) (g : Term) (extra : List Term) (s : St)
+    (h : extra.length ≤ 7) : (solve (n + 1) prog (.str "call" (g :: extra)) s).cut = false := by
+  simp only [solve, step, classify, h, if_true]
+  exact callGoal_cut ..
+
+/-- A cut is local to the clause it occurs in: calling a predicate (user-defined or builtin)
+never exports a cut to the caller's clause body. -/
+theorem C07_cut_local_to_clause (prog : Prog) (n : Nat) (g : Term) (s : St) (name : String)
+    (args : List Term) (h : classify g = .pred name args) : (solve (n + 1) prog g s).cut = false := by
+  simp only [solve, step, h]
+  split
+  · rfl
+  · rfl
+  · rfl
+  · exact raise_cut ..
+  · exact userCall_cut ..
+
+/-- `\+`, `catch/3`, `findall/3` and a variable goal are opaque to cut as well. -/
+theorem C07_naf_catch_findall_opaque_to_cut (prog : Prog) (n : Nat) (s : St) (g c r t l : Term)
+    (v : String) :
+    (solve (n + 1) prog (.str "\\+" [g]) s).cut = false ∧
+    (solve (n + 1) prog (.str "catch" [g, c, r]) s).cut = false ∧
+    (solve (n + 1) prog (.str "findall" [t, g, l]) s).cut = false ∧
+    (solve (n + 1) prog (.var v) s).cut = false := by
+  refine ⟨?_, ?_, ?_, ?_⟩
+  · simp only [solve, step, classify]; exact nafRes_cut ..
+  · simp only [solve, step, classify]; exact catchRes_cut ..
+  · simp only [solve, step, classify]; exact findallRes_cut ..
+  · simp only [solve, step, classify]; exact callGoal_cut ..
+
+/-- A cut in the condition of an if-then-else is local to the condition (ISO 7.8.8): the
+if-then-else looks only at the condition's answers and ball, never at its cut flag. In particular
+`( C, ! -> T ; E )` still runs `E` when `C` fails and does not remove the clause's alternatives.
+(The pinned code generator violates this: finding C07-1.) -/
+theorem C07_cut_in_condition_is_local (sols : List St) (c c' : Bool) (exc : Option (Term × Nat))
+    (oof : Bool) (runT : St → Res) (runE : Unit → Res) :
+    iteRes ⟨sols, c, exc, oof⟩ runT runE = iteRes ⟨sols, c', exc, oof⟩ runT runE := rfl
+
+/-- … while a cut in the then or else branch is transparent: the if-then-else returns the
+branch's result unchanged, cut flag included. -/
+theorem C07_cut_in_branch_is_transparent (s1 : St) (rest : List St) (c : Bool)
+    (exc : Option (Term × Nat)) (runT : St → Res) (runE : Unit → Res) :
+    iteRes ⟨s1 :: rest, c, exc, false⟩ runT runE = runT s1 ∧
+    iteRes ⟨[], c, .none, false⟩ runT runE = runE () := ⟨rfl, rfl⟩
+
+/-! ## Definable constructs -/
+
+/-- `(C -> T)` is `(C -> T ; fail)`. -/
+theorem C07_ifthen_is_ite_fail (prog : Prog) (n : Nat) (c t : Term) (s : St) :
+    solve (n + 2) prog (.str "->" [c, t]) s =
+      solve (n + 2) prog (.str ";" [.str "->" [c, t], .atom "fail"]) s := by
+  simp only [solve, step, classify]
+
+/-- `\+ G` is `(call(G) -> fail ; true)`. -/
+theorem C07_naf_is_ite (prog : Prog) (n : Nat) (g : Term) (s : St) :
+    solve (n + 2) prog (.str "\\+" [g]) s =
+      solve (n + 3) prog (.str ";" [.str "->" [.str "call" [g], .atom "fail"], .atom "true"]) s := by
+  have e1 : solve (n + 2) prog (.str "call" [g]) s = callGoal (solve (n + 1) prog) (n + 1) s g [] := by
+    simp [solve, step, classify]
+  have e2 : solve (n + 2) prog (.atom "fail") = fun _ => Res.none := by
+    funext s'; exact solve_fail ..
+  conv => rhs; rw [solve]; simp only [step, classify]
+  rw [e1, e2, solve_true]
+  conv => lhs; rw [solve]; simp only [step, classify]
+  exact nafRes_eq_iteRes ..
+
+/-- `once(G)` is `(call(G) -> true ; fail)`. -/
+theorem C07_once_is_ite (prog : Prog) (n : Nat) (g : Term) (s : St) :
+    solve (n + 2) prog (.str "once" [g]) s =
+      solve (n + 3) prog (.str ";" [.str "->" [.str "call" [g], .atom "true"], .atom "fail"]) s := by
+  have e1 : solve (n + 2) prog (.str "call" [g]) s = callGoal (solve (n + 1) prog) (n + 1) s g [] := by
+    simp [solve, step, classify]
+  have e2 : solve (n + 2) prog (.atom "true") = Res.one := by
+    funext s'; exact solve_true ..
+  conv => rhs; rw [solve]; simp only [step, classify]
+  rw [e1, e2, solve_fail]
+  conv => lhs; rw [solve]; simp only [step, classify]
+
+/-! ## Left-to-right, depth-first -/
+
+/-- Failure and exceptions abort a conjunction: when the left goal has no answer (it failed, or
+raised a ball before any answer), the right goal is never run and the ball, if any, propagates. -/
+theorem C07_conj_left_without_answers (prog : Prog) (n : Nat) (a b : Term) (s : St)
+    (h : (solve n prog a s).sols = []) (ho : (solve n prog a s).oof = false) :
+    solve (n + 1) prog (.str "," [a, b]) s =
+      ⟨[], (solve n prog a s).cut, (solve n prog a s).exc, false⟩ := by
+  simp only [solve, step, classify]
+  exact conjRes_nosols _ _ h ho
+
+/-- Disjunction is left to right, and a ball (or a cut) in the left branch discards the right
+branch. -/
+theorem C07_disj_left_to_right (rA rB : Res) (hA : rA.oof = false) (hB : rB.oof = false) :
+    disjRes rA (fun _ => rB) =
+      (if rA.exc.isSome || rA.cut then rA else ⟨rA.sols ++ rB.sols, rB.cut, rB.exc, false⟩) := by
+  simp [disjRes, hA, hB]
+
+/-- Clauses are tried in textual order and every matching clause contributes: for a predicate
+defined by facts, the answers are exactly the facts whose head unifies with the goal, in the
+order of the program text, one answer per fact (`factAnswers`), no cut, no ball. -/
+theorem C07_facts_in_clause_order (prog : Prog) (k : Nat) (goal : Term) (s : St) (cls : List Clause)
+    (l : List St) (hb : ∀ cl ∈ cls, cl.body = .atom "true")
+    (h : factAnswers (k + 1) goal s cls = some l) :
+    clauseLoop (solve (k + 1) prog) (k + 1) goal s cls = ⟨l, false, .none, false⟩ :=
+  clauseLoop_facts prog k (k + 1) goal s cls l hb h
+
+/-- `catch/3` is transparent for a goal that raises nothing. -/
+theorem C07_catch_without_ball (rec : Term → St → Res) (n : Nat) (s : St) (g c r : Term)
+    (he : (callGoal rec n s g []).exc = .none) (ho : (callGoal rec n s g []).oof = false) :
+    catchRes rec n s g c r = callGoal rec n s g [] := by
+  unfold catchRes
+  simp [he, ho]
+
+/-! ## Non-vacuity: the laws talk about runs that exist -/
+
+/-- three facts, the query `t(X)`: three answers in textual order, found with fuel 8. -/
+example : ((solve 8 [⟨.str "t" [.int 1], .atom "true"⟩, ⟨.str "t" [.int 2], .atom "true"⟩,
+      ⟨.str "t" [.int 3], .atom "true"⟩] (.str "t" [.var "X"]) ⟨[], 0⟩).sols.map
+        (fun st => match lookup st.σ "X" with | some (.int v) => v | _ => 0))
+    = [1, 2, 3] := by decide
+
+/-- `( (!, fail) -> true ; true )` succeeds once (the cut in the condition is local) — the pinned
+implementation fails here (finding C07-1). -/
+example : (solve 6 [] (.str ";" [.str "->" [.str "," [.atom "!", .atom "fail"], .atom "true"],
+      .atom "true"]) ⟨[], 0⟩).sols.length = 1 := by decide
+
+/-- the hypotheses of `C07_conj_left_without_answers` are satisfiable with a ball. -/
+example : (solve 3 [] (.str "throw" [.atom "b"]) ⟨[], 0⟩).sols = [] ∧
+    (solve 3 [] (.str "throw" [.atom "b"]) ⟨[], 0⟩).exc.isSome = true := by decide
 
 end Scryer.Solve
